@@ -153,7 +153,7 @@ class C15(Check):
     trusted_base = ['dict model in checks/c15.py']
     required_classes = ['op/add', 'op/add-name', 'op/add_methods', 'op/add-decorator-reused', 'op/view', 'op/view-prefix', 'op/merge', 'merge/prefixed-into-prefixed',
                         'merge/depth>=2', 'replaced', 'attach/registry', 'attach/add', 'attach/view', 'attach/mixed', 'dispatcher/sync', 'dispatcher/async', 'view/inherited',
-                        'view/siblings-sharing-inherited-methods', 'serving-while-registering/name-changed-between-probes']
+                        'view/siblings-sharing-inherited-methods', 'serving-while-registering/name-changed-between-probes', 'attach/through-the-registry-property']
 
     def strategy(self, tier: str):
         s_fn = st.integers(0, len(FUNCS) - 1)
@@ -180,9 +180,9 @@ class C15(Check):
             ), min_size=2, max_size=4)),
         )
         return st.builds(
-            lambda d, regs, ops, att: {'dispatcher': d, 'registries': regs, 'ops': [list(o) for o in ops], 'attach': [list(a) for a in att]},
+            lambda d, regs, ops, att, thr: {'dispatcher': d, 'registries': regs, 'ops': [list(o) for o in ops], 'attach': [list(a) for a in att], 'through': thr},
             st.sampled_from(['sync', 'async']), st.lists(st.sampled_from(PREFIXES), min_size=1, max_size=4),
-            st.lists(s_op, max_size=6), st.lists(s_attach, min_size=1, max_size=3),
+            st.lists(s_op, max_size=6), st.lists(s_attach, min_size=1, max_size=3), st.sampled_from(['dispatcher', 'dispatcher', 'registry-property']),
         )
 
     def corpus(self):
@@ -193,6 +193,8 @@ class C15(Check):
              'attach': [['mixed', [['func', 1], ['method', 2, 'f0'], ['registry', 1], ['registry', 0]]]]},
             {'dispatcher': 'sync', 'registries': ['a', None], 'ops': [['view', 0, 6], ['view-prefix', 1, 6, 'user'], ['merge', 0, 1]], 'attach': [['registry', 1], ['view', 6]]},
             {'dispatcher': 'sync', 'registries': ['a'], 'ops': [['add-decorator-reused', 0, 0, 1], ['add-decorator-reused', 0, 2, 5]], 'attach': [['registry', 0]]},
+            {'dispatcher': 'sync', 'registries': ['a'], 'ops': [['add', 0, 0]], 'attach': [['registry', 0], ['add', 1, 'x'], ['view', 1]], 'through': 'registry-property'},
+            {'dispatcher': 'async', 'registries': [None], 'ops': [['add', 0, 2]], 'attach': [['add', 2, None], ['registry', 0]], 'through': 'registry-property'},
             {'dispatcher': 'async', 'registries': [None, 'a'], 'ops': [['view', 1, 2], ['add-name', 1, 1, 'get'], ['merge', 1, 0]], 'attach': [['registry', 0], ['view', 1]]},
         ]
 
@@ -272,7 +274,19 @@ class C15(Check):
                 if depth[dst] >= 2:
                     classes.add('merge/depth>=2')
 
+        # 'registry-property': the same registrations made on the registry the dispatcher exposes (`dispatcher.registry.add(...)`,
+        # `.merge(...)`, `.view(...)`) instead of through the dispatcher's own wrappers - it is the registry the dispatcher serves from
+        through_property = spec.get('through') == 'registry-property'
+
         def do_attach(dd: Any, att: List[Any]) -> None:
+            if through_property and att[0] != 'mixed':
+                if att[0] == 'registry':
+                    dd.registry.merge(regs[att[1] % nreg])
+                elif att[0] == 'add':
+                    dd.registry.add(FUNCS[att[1]], att[2])
+                else:
+                    dd.registry.view(VIEWS[att[1]])
+                return
             if att[0] == 'registry':
                 dd.add_methods(regs[att[1] % nreg])
             elif att[0] == 'add':
@@ -314,9 +328,11 @@ class C15(Check):
             snapshots.append(dict(model))
         if replaced:
             classes.add('replaced')
+        if through_property:
+            classes.add('attach/through-the-registry-property')
 
         discs: List[Disc] = []
-        where = f"registries={spec['registries']} ops={spec['ops']} attach={spec['attach']} dispatcher={kind}"
+        where = f"registries={spec['registries']} ops={spec['ops']} attach={spec['attach']} dispatcher={kind} through={spec.get('through', 'dispatcher')}"
         keys = set(d.registry.keys())
         if keys != set(model):
             discs.append(Disc("C15/registry-key-set", f"extra {sorted(keys - set(model))} missing {sorted(set(model) - keys)} | {where}"))
